@@ -244,7 +244,7 @@ Proof. exact run_lookups_total. Qed.
 Print Assumptions c01_lookups_total.
 
 (* Minidump::get_memory (Memory64 list if it parses, else the memory list, else none) and MinidumpThread::stack_memory (the stack read at
-   parse time, else the region of that list found at stack.start_of_memory_range): the compared field TS never traps, names a list
+   parse time, else the region of that list found at stack.start_of_memory_range): the compared fields TS and TIG (get_thread_info of the first eight ids) never trap; TS names a list
    kind in 0..2 and per thread -2 / -1 / a region index; and a stack found through the fallback is a position of the list *)
 Theorem c01_stack_source_total : forall p file, wf_bytes file -> blen file < T62 ->
   forall tag f, In (tag, f) (run_stacks p file) -> (forall t, f <> FPan t) /\ f <> FNoFuel.
@@ -255,7 +255,7 @@ Theorem c01_stack_fallback_sound : forall p descs addr i, wf_descs descs ->
 Proof. exact stack_fallback_sound. Qed.
 Print Assumptions c01_stack_fallback_sound.
 
-(* ---- round 5: the file layout the models read with — 35 record sizes, 75 field offsets/widths (nested location descriptors
+(* ---- round 5: the file layout the models read with — 35 record sizes, 76 field offsets/widths (nested location descriptors
    included), 5 array lengths — equals what Gen/Layouts.v says, which translate/format_layouts.py regenerates from the struct
    definitions of minidump-common/src/format.rs on every run; and every row of Model.ctx_table (CONTEXT_* size, offset and width
    of context_flags) agrees with the generated layout of that context struct, for every processor_architecture value *)
@@ -368,7 +368,7 @@ Example c01_nonvacuous_lookups :
   run_lookups Debug nv_dump = [(33, FErr EStreamNotFound); (34, FOk [1; 0; 0; -1; -1; 0; 0]); (35, FErr EStreamNotFound);
                                (36, FErr EStreamNotFound); (37, FOk [0; 1])] /\
   get_thread_index LE [[1; 0; 0; 0]; [2; 0; 0; 0]; [1; 0; 0; 0]] 1 = Ok 2 /\
-  (length size_pins = 35 /\ length field_pins = 75 /\ length length_pins = 5)%nat /\ first_bad = [] /\
+  (length size_pins = 35 /\ length field_pins = 76 /\ length length_pins = 5)%nat /\ first_bad = [] /\
   Nat.ltb 250 const_index_site_count = true /\ bad_const_index_rejected = true.
 Proof.
   cbv zeta. split.
